@@ -12,21 +12,31 @@
    lifting and the passes produce for them ([defs]), the options and the
    analysis order are universally quantified.
 
-   For the failure classes the mirrors can express — a named path that cannot
-   be opened, a file whose content cannot be read, a named file that does not
-   parse, an include of a named file that resolves nowhere — the hypothesis
-   ([failure_event], Spec.NoSilentSpec) is a fact about the FILE SYSTEM; that
-   the error report is in the project handed to the runner, with a location
-   that passes the file filter, is derived.  For the classes produced by
-   stages outside both mirrors the report is a member of [others] (observed
-   by the injection matrix of lib/props/C02.py). *)
+   Of the ten failure classes of the property text, FOUR are derived here —
+   a named path that cannot be opened, a file whose content cannot be read, a
+   named file that does not parse, an include of a named file that resolves
+   nowhere ([class_producer c = ByIncludes]): the hypothesis ([failure_event],
+   Spec.NoSilentSpec) is a fact about the FILE SYSTEM; that the error report
+   is in the project handed to the runner, that it is error level, with a
+   location that passes the file filter, is derived (that errors.rs gives
+   these reports the category and the code Model.Front.report_of says is
+   compared on every project of the matrix, engine front).  The other SIX
+   (version pragma, several main components, invalid tuple / anonymous
+   component, duplicate parameter, lift failure, duplicate definition) are
+   produced by stages outside both mirrors; for them there is NO class
+   theorem: once such a report exists with error level, C02_error_report_displayed
+   (the runner's filter law) applies, and that the real stages produce it is
+   covered by the injection matrix of lib/props/C02.py only. *)
 From Coq Require Import ZArith Permutation Ascii String.
 Require Import Gen.Category Model.Runner Spec.RunnerSpec Proofs.RunnerProofs.
 From stdpp Require Import list strings.
 Require Import Model.Includes Model.Front Spec.IncludesSpec Spec.NoSilentSpec Proofs.NoSilentProofs.
 
-(* every failure class: the report of the event is displayed, it is error
-   level, and the exit status is 1 — unless that very id is allow-listed *)
+(* the four derived failure classes (class_producer c = ByIncludes: MissingFile,
+   UnreadableFile, SyntaxError, UnresolvedInclude): the report of the event is
+   displayed, it is error level, and the exit status is 1 — unless that very id
+   is allow-listed.  The hypothesis failure_event is, for these classes, a
+   statement about the file system and the FileLibrary only. *)
 Theorem C02_failure_classes_reported :
   forall (path : Type) (EqDecision0 : EqDecision path)
          (canon : path -> option path) (is_dir is_file : path -> bool)
@@ -40,6 +50,7 @@ Theorem C02_failure_classes_reported :
                   false dfuel fuel argv libs = Base.Ok s ->
       forall (others : list Runner.report) (defs : list def) (o : opts) (order : list key)
              (c : failure_class) (r : Runner.report),
+        class_producer c = ByIncludes ->
         wf_project (front_project pf_id pf_name payload s others defs) ->
         analysis_order (front_project pf_id pf_name payload s others defs) order ->
         failure_event canon is_dir is_file read_dir join parent file_name ext_circom starts_dot has_sep content
@@ -48,7 +59,7 @@ Theorem C02_failure_classes_reported :
         In r (res_shown (run_keys (front_project pf_id pf_name payload s others defs) o order)) /\
         r_level r = Error /\
         res_exit (run_keys (front_project pf_id pf_name payload s others defs) o order) = 1%Z.
-Proof. exact @failure_classes_reported. Qed.
+Proof. exact @derived_classes_reported. Qed.
 Print Assumptions C02_failure_classes_reported.
 
 (* the events of the Includes mirror are not hypothetical: a named file that
@@ -221,10 +232,11 @@ Proof.
   repeat split; vm_compute; reflexivity.
 Qed.
 
-(* the hypotheses of C02_failure_classes_reported are satisfiable for a class
-   of each producer: a derived one (the named path nosuch.circom cannot be
-   canonicalised), one of the lifter (a definition of file 1 with an error),
-   one of another stage (a label-less error in [others]) *)
+(* the hypotheses of C02_failure_classes_reported are satisfiable for three of
+   the four derived classes on that file system (the named path nosuch.circom
+   cannot be canonicalised; bad.circom, file id 0, does not parse; the include
+   of x.circom in a.circom, file id 1, resolves nowhere), next to a lift error
+   and a pragma report that play no role for them *)
 Definition ex_lift_err : Runner.report := mkReport Error 2 2 [1%Z] 7.
 Definition ex_T : def := mkDef KTemplate 1 1 [] (Some ex_lift_err) [] [].
 Definition ex_pragma : Runner.report := mkReport Error 3 3 [] 8.
@@ -233,27 +245,32 @@ Example C02_events_satisfiable :
   exists s, run_project false ex_fs ex_argv [] = Base.Ok s /\
     wf_project (front_project 1000 1000 ex_pay s [ex_pragma] [ex_T]) /\
     analysis_order (front_project 1000 1000 ex_pay s [ex_pragma] [ex_T]) [(KTemplate, 1%Z)] /\
+    class_producer MissingFile = ByIncludes /\ class_producer SyntaxError = ByIncludes /\
+    class_producer UnresolvedInclude = ByIncludes /\
     failure_event (d_canon ex_fs) (d_is_dir ex_fs) (d_is_file ex_fs) (d_read_dir ex_fs) s_join s_parent s_file_name
                   s_ext_circom s_starts_dot s_has_sep (d_content ex_fs) 1000 1000 ex_pay ex_argv [] s
                   [ex_pragma] [ex_T] MissingFile (mkReport Error 1000 1000 [] 1) /\
     failure_event (d_canon ex_fs) (d_is_dir ex_fs) (d_is_file ex_fs) (d_read_dir ex_fs) s_join s_parent s_file_name
                   s_ext_circom s_starts_dot s_has_sep (d_content ex_fs) 1000 1000 ex_pay ex_argv [] s
-                  [ex_pragma] [ex_T] LiftFailure ex_lift_err /\
+                  [ex_pragma] [ex_T] SyntaxError (mkReport Error 1000 1000 [0%Z] 2) /\
     failure_event (d_canon ex_fs) (d_is_dir ex_fs) (d_is_file ex_fs) (d_read_dir ex_fs) s_join s_parent s_file_name
                   s_ext_circom s_starts_dot s_has_sep (d_content ex_fs) 1000 1000 ex_pay ex_argv [] s
-                  [ex_pragma] [ex_T] BadPragma ex_pragma.
+                  [ex_pragma] [ex_T] UnresolvedInclude (mkReport Error 1000 1000 [1%Z] 3).
 Proof.
   eexists. split; [vm_compute; reflexivity|].
   assert (Hnamed : named (d_canon ex_fs) (d_is_dir ex_fs) (d_read_dir ex_fs) s_join s_ext_circom ex_argv (str "/r/a.circom")).
   { exists (str "a.circom"). split; [right; left|]. apply expands_file; reflexivity. }
+  assert (Hbad : named (d_canon ex_fs) (d_is_dir ex_fs) (d_read_dir ex_fs) s_join s_ext_circom ex_argv (str "/r/bad.circom")).
+  { exists (str "bad.circom"). split; [do 3 right; left|]. apply expands_file; reflexivity. }
   split. { unfold wf_project. simpl. repeat constructor. intros []. }
   split. { vm_compute. apply Permutation_refl. }
+  split; [reflexivity|]. split; [reflexivity|]. split; [reflexivity|].
   split. { simpl. exists (str "nosuch.circom"), (str "nosuch.circom"). split; [do 2 right; left|].
            split; [apply fto_file; reflexivity|reflexivity]. }
   split.
-  { simpl. split; [reflexivity|]. split.
-    - right. exists 1%Z. split; [left; reflexivity|]. exists 1, (str "/r/a.circom"), true. repeat split; assumption.
-    - exists ex_T. split; [left; reflexivity|]. split; [|reflexivity].
-      exists 1, (str "/r/a.circom"), true. repeat split; assumption. }
-  simpl. split; [reflexivity|]. split; [left; reflexivity|reflexivity].
+  { simpl. exists (str "/r/bad.circom"), 0, true. split; [exact Hbad|]. repeat split; reflexivity. }
+  simpl. exists (str "/r/a.circom"), [ (str "x.circom", 21, 40); (str "b.circom", 41, 60) ], (str "x.circom"), 21, 40, 1, true.
+  split; [exact Hnamed|]. split; [reflexivity|]. split; [left|].
+  split; [|split; reflexivity].
+  apply resolves_nowhere; [reflexivity|]. unfold the_libraries. simpl. constructor.
 Qed.
